@@ -192,6 +192,7 @@ def norm_inst(inst):
             q.setdefault(k, [])
         q["joinports"] = sorted((q.get("joins") or {}).keys())
         q.setdefault("cores", 1)
+        if q["kind"] == "concat": q["item"] = path_id(q.get("arg", ""))      # the one file the component emits
         q["ins"] = sorted(q["ins"]); q["params"] = sorted(q["params"])
         procs.append(q)
     i["procs"] = procs
@@ -419,6 +420,7 @@ def normalize_flow(events, inst, end):
     relays = {p["name"]: p["params"][0] for p in inst["procs"] if p["kind"] == "pcomb" and len(p["params"]) == 1}
     combs = {p["name"] for p in inst["procs"] if (p["kind"] == "pcomb" and len(p["params"]) >= 2) or p["kind"] == "fcomb"}
     passes = {p["name"] for p in inst["procs"] if p["kind"] == "maptotags"}
+    cats = {p["name"] for p in inst["procs"] if p["kind"] == "concat"}       # collect-then-emit-one-file components: relays without hooks
     for m in passes:
         emit_outs.add(m + ".out")
     pass_seen = {m: set() for m in passes}
@@ -426,6 +428,9 @@ def normalize_flow(events, inst, end):
         emit_outs.add("%s.%s>" % (r, port))
     relay_in = {"%s.%s" % (r, port): r for r, port in relays.items()}
     relay_got = {r: [] for r in relays}       # items sent to the relay's in-port, in send order
+    for c in cats:
+        emit_outs.add(c + ".out"); relay_in[c + ".in"] = c; relay_got[c] = []
+    def relay_inport(r): return "%s.%s" % (r, "in" if r in cats else relays[r])
     relay_started = set()
     def feedname(frm, to):
         if frm.endswith(".string_feeder"):
@@ -458,21 +463,21 @@ def normalize_flow(events, inst, end):
                 # pass-through component without hooks: it received the item it now forwards
                 pass_seen[pproc].add(item)
                 out.append(dict(e="relay.recv", proc=pproc, port=pproc + ".in", closed=False, item=item))
-            rproc = frm[:-1].rsplit(".", 1)[0] if frm.endswith(">") else None
-            if rproc in relays and rproc not in relay_started:
+            rproc = frm[:-1].rsplit(".", 1)[0] if frm.endswith(">") else (frm.rsplit(".", 1)[0] if frm.rsplit(".", 1)[0] in cats else None)
+            if rproc in relay_got and rproc not in relay_started:
                 # the component has no hooks: its receives are reconstructed (single upstream, channel order = send order)
                 relay_started.add(rproc)
-                port = "%s.%s" % (rproc, relays[rproc])
+                port = relay_inport(rproc)
                 for it in relay_got[rproc]:
                     out.append(dict(e="relay.recv", proc=rproc, port=port, closed=False, item=it))
                 out.append(dict(e="relay.recv", proc=rproc, port=port, closed=True, item=""))
             out.append(dict(e="send." + e.split(".")[1], to=ev["to"], item=item, **{"from": frm}))
         elif e in ("conn.close", "connp.close"):
             frm = feedname(ev["from"], ev["port"])
-            rproc = frm[:-1].rsplit(".", 1)[0] if frm.endswith(">") else None
-            if rproc in relays and rproc not in relay_started:      # relay that emitted nothing
+            rproc = frm[:-1].rsplit(".", 1)[0] if frm.endswith(">") else (frm.rsplit(".", 1)[0] if frm.rsplit(".", 1)[0] in cats else None)
+            if rproc in relay_got and rproc not in relay_started:      # relay that emitted nothing
                 relay_started.add(rproc)
-                port = "%s.%s" % (rproc, relays[rproc])
+                port = relay_inport(rproc)
                 for it in relay_got[rproc]:
                     out.append(dict(e="relay.recv", proc=rproc, port=port, closed=False, item=it))
                 out.append(dict(e="relay.recv", proc=rproc, port=port, closed=True, item=""))
